@@ -26,7 +26,7 @@ import common
 from common import (Ctx, Failure, cbool, cjson, clist, copt, cstr, cz, corpus_cases)
 
 COQ_TARGETS = ["props/P_C05.vo", "corr/Corr_C05.vo"]
-PROOF_FILES = ["proofs/Validate_proofs.v"]
+PROOF_FILES = ["proofs/Validate_proofs.v", "proofs/Fixpoint_proofs.v"]
 RULE = ("unit: (target, actual, last_applied, as_set) with targets of depth <= 4 carrying the three x-koreo "
         "directives at random depths (also inside list items, also malformed), falsy leaves, ints vs equal "
         "floats, server-decorated actuals, plus an exhaustive product over a small value alphabet; for every "
@@ -319,14 +319,20 @@ def decorate(rng, t, sent, intfloat=True):
         for k, sv in sent.items():
             tv = t.get(k)
             if k in mk and isinstance(mk[k], list) and isinstance(sv, list) and all(isinstance(e, dict) for e in sv):
-                els = [decorate(rng, te, se, intfloat=False) if isinstance(te, dict) else copy.deepcopy(se)
-                       for te, se in zip(tv, sv)]
+                # pair live elements with target elements by key (the live list may already be
+                # permuted / extended by an earlier decoration)
+                fs = [f for f in mk[k] if isinstance(f, str)]
+                by_key = {key_of(te, fs): te for te in tv if isinstance(te, dict)} if isinstance(tv, list) else {}
+                els = []
+                for se in sv:
+                    te = by_key.get(key_of(se, fs))
+                    els.append(decorate(rng, te, se, intfloat=False) if isinstance(te, dict) else copy.deepcopy(se))
                 # key fields must keep their exact value (their str() is the key)
                 for e, se in zip(els, sv):
                     for f in mk[k]:
                         if isinstance(f, str) and f in se:
                             e[f] = copy.deepcopy(se[f])
-                if els and rng.random() < 0.5:
+                if els and rng.random() < 0.5 and not any(e.get("added") == 1 for e in els):
                     extra = {f: "zz-extra" for f in mk[k] if isinstance(f, str)}
                     extra["added"] = 1
                     els.append(extra)
@@ -565,11 +571,11 @@ def unit_exhaustive(quick):
             for s in (False, True):
                 yield {"t": t, "a": a, "la": la, "as_set": s}
     # one key, every directive on it, every la shape
-    vals = ALPHA if not quick else ALPHA[:12]
+    vals = ALPHA if not quick else [None, True, 0, 1, 1.0, "", "a", [], [1], {}, {"a": 1}]
     for tv, av in itertools.product(vals, repeat=2):
         for dirs in ({}, {S: ["k"]}, {L: ["k"]}, {M: {"k": ["a"]}}, {M: {"k": []}}, {S: ["k"], L: ["k"]},
                      {M: {"k": ["a"]}, L: ["k"]}):
-            for la in (LA_ALPHA if not quick else LA_ALPHA[:8:2] + LA_ALPHA[8:]):
+            for la in (LA_ALPHA if not quick else [None, {"k": {"a": 1}}, {"k": [1]}, [1], "k", 1]):
                 yield {"t": {**dirs, "k": tv}, "a": {"k": av}, "la": la}
     # sets: bool / int / float conflation, unhashables
     sets = [[], [1], [True], [1.0], [0], [False], [1, True], [1, 2], [2, 1], ["a"], [None], [[1]], [{"a": 1}], [1, 1]]
@@ -1084,9 +1090,10 @@ def correspond(ctx: Ctx, cases, terms, name="validate_match / reconcile tail vs 
         return
     ctx.correspond(name, "Corr_C05", cases, terms)
     # statistics: on how many cases is the model's verdict a set of several outcomes?
-    amb, err = common.eval_cases("Corr_C05", terms, ctx.workdir / "coq-definite", check_fn="definite_case")
+    sample = terms if not ctx.quick() else terms[::5]
+    amb, err = common.eval_cases("Corr_C05", sample, ctx.workdir / "coq-definite", check_fn="definite_case")
     if not err:
-        ctx.dist["corr:order-dependent-or-out-of-model"] = len(amb)
+        ctx.dist["corr:order-dependent-or-out-of-model"] = f"{len(amb)} of {len(sample)} sampled"
 
 
 def run(ctx: Ctx):
